@@ -1,7 +1,198 @@
-//! C12: not built yet.
-use anyhow::{bail, Result};
-use serde_json::Value;
+//! C12: enigma_file::{write_all, write_one, read_into}, enigma_dir::{write, read}.
+//!
+//! Line records are {"ind": leading tabs, "text": rest of the line}.
+//! ops  {"op":"rt","M":tree}     -> {"done":true,"write":"ok"|"err","stream":{"lines":[..],"back":{ok,v}},
+//!                                    "dir":{"files":[{"name":s,"lines":[..]}..],"back":{ok,v}},"one":b,"same":b,"sorted":b}
+//!          write_all to a stream and enigma_dir::write to a scratch directory, from several insertion orders (same),
+//!          each read back by the real readers; one: write_one(file name) equals the directory file, for every file
+//!      {"op":"lines","lines":[..]} -> {ok,v}   enigma_file::read_into on arbitrary line records
+use std::path::{Path, PathBuf};
+use anyhow::{bail, Context, Result};
+use rand::rngs::StdRng;
+use rand::{Rng, SeedableRng};
+use serde_json::{json, Value};
+use quill::tree::mappings::Mappings;
+use quill::tree::names::Namespaces;
+use quill::tree::NodeInfo;
+use crate::gen_quill::*;
+use crate::proj_quill::*;
+use super::res_tree;
 
-pub fn exec(_v: &Value) -> Result<Value> { bail!("C12: driver not built") }
+pub fn to_lines(text: &str) -> Vec<Value> {
+	let mut out = vec![];
+	let mut t = text;
+	if let Some(s) = t.strip_suffix('\n') { t = s; } else if t.is_empty() { return out; }
+	for l in t.split('\n') {
+		let ind = l.chars().take_while(|c| *c == '\t').count();
+		out.push(json!({"ind": ind, "text": &l[ind..]}));
+	}
+	out
+}
+pub fn from_lines(lines: &Value) -> Result<String> {
+	let mut s = String::new();
+	for l in lines.as_array().context("lines")? {
+		for _ in 0..l["ind"].as_u64().context("ind")? { s.push('\t'); }
+		s.push_str(l["text"].as_str().context("text")?);
+		s.push('\n');
+	}
+	Ok(s)
+}
 
-pub fn gen(_seed: u64, _n: usize) -> Result<Vec<Value>> { bail!("C12: driver not built") }
+fn ns_of(m: &Value) -> Result<Namespaces<2, Ns>> {
+	let a = m["ns"].as_array().context("ns")?;
+	Namespaces::try_from([a[0].as_str().unwrap_or("").to_owned(), a[1].as_str().unwrap_or("").to_owned()])
+}
+
+fn read_stream(ns: Namespaces<2, Ns>, text: &str) -> Result<Mappings<2, Ns>> {
+	let mut m = Mappings::new(quill::tree::mappings::MappingInfo { namespaces: ns });
+	quill::enigma_file::read_into(text.as_bytes(), &mut m)?;
+	Ok(m)
+}
+
+fn walk(dir: &Path, base: &Path, out: &mut Vec<(String, String)>) -> Result<()> {
+	let mut es: Vec<PathBuf> = std::fs::read_dir(dir)?.map(|e| e.map(|e| e.path())).collect::<std::io::Result<_>>()?;
+	es.sort();
+	for p in es {
+		if p.is_dir() { walk(&p, base, out)?; } else {
+			let rel = p.strip_prefix(base)?.to_string_lossy().to_string();
+			out.push((rel, std::fs::read_to_string(&p)?));
+		}
+	}
+	Ok(())
+}
+
+/// sibling entries of the same kind non-decreasing by source name (second token), files by name
+fn is_sorted(lines: &[Value]) -> bool {
+	// last[(indent, tag)] = last source name seen among the current siblings
+	let mut last: std::collections::HashMap<(u64, String), String> = Default::default();
+	let mut last_file: Option<String> = None;
+	for l in lines {
+		let ind = l["ind"].as_u64().unwrap_or(0);
+		let text = l["text"].as_str().unwrap_or("");
+		if ind == 0 && text.starts_with("# ") {
+			let f = text[2..].to_owned();
+			if let Some(p) = &last_file { if *p > f { return false; } }
+			last_file = Some(f);
+			last.clear();
+			continue;
+		}
+		let mut it = text.split(' ');
+		let tag = it.next().unwrap_or("").to_owned();
+		if tag == "COMMENT" || tag == "#" { continue; }
+		let mut src = it.next().unwrap_or("").to_owned();
+		if tag == "ARG" { src = format!("{:0>10}", src); }
+		last.retain(|(i, _), _| *i <= ind);
+		if let Some(p) = last.get(&(ind, tag.clone())) { if *p > src { return false; } }
+		last.insert((ind, tag), src);
+	}
+	true
+}
+
+fn rt(v: &Value) -> Result<Value> {
+	let mj = &v["M"];
+	let seed = v["seed"].as_u64().unwrap_or(1);
+	let base: Mappings<2, Ns> = json_to_tree(mj)?;
+	let mut text = Vec::new();
+	if quill::enigma_file::write_all(&base, &mut text).is_err() {
+		return Ok(json!({"done": true, "write": "err"}));
+	}
+	let text = String::from_utf8(text).context("utf8")?;
+	let root = PathBuf::from(format!("/dev/shm/verif-work/tmp/enigma-{}", std::process::id()));
+	let _ = std::fs::remove_dir_all(&root);
+	let d0 = root.join("d0");
+	std::fs::create_dir_all(&d0)?;
+	if quill::enigma_dir::write(&base, &d0).is_err() {
+		let _ = std::fs::remove_dir_all(&root);
+		return Ok(json!({"done": true, "write": "err", "where": "dir"}));
+	}
+	let mut files = vec![];
+	walk(&d0, &d0, &mut files)?;
+	// insertion independence
+	let mut same = true;
+	let mut r = StdRng::seed_from_u64(seed);
+	for i in 1..3 {
+		let mut pf = perm_fn(&mut r);
+		let other: Mappings<2, Ns> = json_to_tree_ord(mj, &mut pf)?;
+		let mut t2 = Vec::new();
+		if quill::enigma_file::write_all(&other, &mut t2).is_err() || t2 != text.as_bytes() { same = false; }
+		let di = root.join(format!("d{i}"));
+		std::fs::create_dir_all(&di)?;
+		let mut f2 = vec![];
+		if quill::enigma_dir::write(&other, &di).is_err() { same = false; } else { walk(&di, &di, &mut f2)?; if f2 != files { same = false; } }
+	}
+	// write_one per file
+	let mut one = true;
+	for (name, content) in &files {
+		let key = name.strip_suffix(".mapping").unwrap_or(name);
+		let mut w = Vec::new();
+		if quill::enigma_file::write_one(&base, key, &mut w).is_err() || w != content.as_bytes() { one = false; }
+	}
+	let back_s = read_stream(ns_of(mj)?, &text);
+	let back_d = quill::enigma_dir::read(&d0, ns_of(mj)?);
+	let _ = std::fs::remove_dir_all(&root);
+	let lines = to_lines(&text);
+	let sorted = is_sorted(&lines);
+	let fjson: Vec<Value> = files.iter().map(|(n, c)| json!({"name": n.strip_suffix(".mapping").unwrap_or(n), "lines": to_lines(c)})).collect();
+	Ok(json!({"done": true, "write": "ok", "stream": {"lines": lines, "back": res_tree(back_s)}, "dir": {"files": fjson, "back": res_tree(back_d)},
+		"one": one, "same": same, "sorted": sorted}))
+}
+
+pub fn exec(v: &Value) -> Result<Value> {
+	match v["op"].as_str().context("op")? {
+		"rt" => rt(v),
+		"lines" => {
+			let text = from_lines(&v["lines"])?;
+			let ns = Namespaces::try_from(["src".to_owned(), "dst".to_owned()])?;
+			Ok(res_tree(read_stream(ns, &text)))
+		},
+		op => bail!("C12: unknown op {op}"),
+	}
+}
+
+/// makes target names of nested classes follow the nesting (the precondition of the round trip), top down
+fn follow_nesting(r: &mut StdRng, m: &mut Value, p_break: f64) {
+	let keys: Vec<String> = kids_of(m).into_iter().map(|(k, _)| k.clone()).collect();
+	let mut srcs: Vec<String> = keys.iter().map(|k| k[2..].to_owned()).collect();
+	srcs.sort_by_key(|s| s.matches('$').count());
+	for src in srcs {
+		let Some((parent, _)) = src.rsplit_once('$') else { continue };
+		let pk = format!("c {parent}");
+		let Some(p) = m["kids"].get(&pk) else { continue };
+		let pd = p["names"][1].as_str().unwrap_or("");
+		let pd = if pd.is_empty() { parent.to_owned() } else { pd.to_owned() };
+		let c = &mut m["kids"][format!("c {src}")];
+		let cur = c["names"][1].as_str().unwrap_or("").to_owned();
+		if cur.is_empty() || r.gen_bool(p_break) { continue; }
+		let simple = cur.rsplit(|ch| ch == '/' || ch == '$').next().unwrap_or("x").to_owned();
+		c["names"][1] = json!(format!("{pd}${simple}"));
+	}
+}
+
+pub fn gen(seed: u64, n: usize) -> Result<Vec<Value>> {
+	let mut r = StdRng::seed_from_u64(seed ^ 0xC12);
+	let mut out = vec![];
+	while out.len() < n {
+		let cfg = TreeCfg { n: 2, classes: r.gen_range(0..14), p_missing: *pick(&mut r, &[0.0, 0.1, 0.3]), unicode: r.gen_bool(0.3),
+			param_src: r.gen_bool(0.1), p_doc: *pick(&mut r, &[0.1, 0.4]), ..TreeCfg::default() };
+		let mut m = gen_tree(&mut r, &cfg);
+		// parameters need a target name to be writable (most of the time)
+		if let Some(Value::Object(k)) = m.get_mut("kids") {
+			for (_, c) in k.iter_mut() {
+				if let Some(Value::Object(mk)) = c.get_mut("kids") {
+					for (_, me) in mk.iter_mut() {
+						if me["kind"] == "m" && me["names"][0] == "<init>" && r.gen_bool(0.9) { me["names"][1] = json!(""); }
+						if let Some(Value::Object(pk)) = me.get_mut("kids") {
+							for (_, p) in pk.iter_mut() {
+								if p["names"][1] == "" && r.gen_bool(0.95) { p["names"][1] = json!(format!("arg{}", p["idx"])); }
+							}
+						}
+					}
+				}
+			}
+		}
+		let p_break = *pick(&mut r, &[0.0, 0.0, 0.0, 0.2]);
+		follow_nesting(&mut r, &mut m, p_break);
+		out.push(json!({"op": "rt", "M": m, "seed": r.gen::<u32>()}));
+	}
+	Ok(out)
+}
